@@ -245,7 +245,13 @@ pub fn decode(t: &mut Tape) -> Case {
                     };
                     let t1 = target(&mut g);
                     let t2 = target(&mut g);
-                    vec![jmp(jt, Jmp::CBranch { target: t1, condition: cond }), jmp(jt2, Jmp::Branch(t2))]
+                    if g.t.prob(20) {
+                        // conditional return (`bxeq lr`): the second jump of the block is a return through a register
+                        g.feat("conditional-return");
+                        vec![jmp(jt, Jmp::CBranch { target: t1, condition: cond }), jmp(jt2, Jmp::Return(evar(&var("RBX", 8))))]
+                    } else {
+                        vec![jmp(jt, Jmp::CBranch { target: t1, condition: cond }), jmp(jt2, Jmp::Branch(t2))]
+                    }
                 }
                 7 => {
                     // return: x86 style (loaded temp), register, or small expression over registers
